@@ -20,8 +20,8 @@ RULE = (
     "Generated configurations: order n in 1-3 (quick: 1-2) with matching order n-1, unpolarised / polarised / time-like, "
     "POLE masses, one heavy-quark threshold crossed upward or downward (inversion exact or expanded), a pair of matching "
     "ratios (k1, k2) in [0.5, 2] differing by >= 30%, smooth toy inputs including an intrinsic heavy component, log grid on "
-    "[0.05, 1] (8-10 points quick, 15 points degree 4 for n=3), alpha_s(threshold) <= 0.25 scaled by lambda in {1, 1/2, "
-    "1/4, 1/8} (n=3: {1, 1/2, 1/4}). R(lambda) = max over flavours and grid points of |f_k1 - f_k2| at the common final "
+    "[0.05, 1] (6 points quick, 8-10 thorough, 15 points degree 4 for n=3), alpha_s(threshold) <= 0.25 scaled by lambda in {1, 1/2, "
+    "1/4, 1/8} (n=3: {1, 1/2, 1/4}; quick tier: {1/2, 1/4, 1/8}). R(lambda) = max over flavours and grid points of |f_k1 - f_k2| at the common final "
     "scale; statistic = best local exponent max_i log2(R(l_i)/R(l_i+1)); required >= n - 0.3. Non-trivial = R(1) is 100x "
     "above the quadrature noise floor; distinct by (n, mode, direction, inversion, grid)."
 )
@@ -40,7 +40,7 @@ LEVEL_TEXT = (
 
 def budget(tier):
     if tier == "quick":
-        return dict(max_examples=8, shards=8, wall_s=170, shrink_s=0)
+        return dict(max_examples=8, shards=8, wall_s=200, shrink_s=0)
     return dict(max_examples=64, shards=16, wall_s=3300, shrink_s=0)
 
 
@@ -68,7 +68,7 @@ def strategy(tier):
         else:
             masses[1] = 40.0  # bottom wall far above every scale used
         lo_s, hi_s = 0.45 * m, 2.5 * m
-        npts = draw(st.integers(8, 10)) if n < 3 else 15
+        npts = (6 if quick else draw(st.integers(8, 10))) if n < 3 else 15
         deg = draw(st.sampled_from((2, 3))) if n < 3 else 4
         card = dict(
             order=[n, 0], masses=masses, ref=[float(m), nfl + 1], alphas=draw(st.floats(0.18, 0.25)),
@@ -76,7 +76,7 @@ def strategy(tier):
             xgrid=[float(x) for x in np.geomspace(0.05, 1.0, npts)], deg=deg,
             method=draw(st.sampled_from(("iterate-exact", "truncated"))), iters=8,
             inv=None if up else draw(st.sampled_from(("exact", "expanded"))),
-            pol=mode == "pol", tl=mode == "tl", cores=1 if quick else 1,
+            pol=mode == "pol", tl=mode == "tl", cores=1,
         )
         pdf = {}
         lo_a = 0.5 if mode == "pol" else 0.0
@@ -100,7 +100,10 @@ def strategy(tier):
         pdf["21"] = {"sea": [draw(st.floats(0.5, 3.0)), draw(st.floats(lo_a, lo_a + 0.3)), draw(st.floats(4.0, 7.0)), draw(st.floats(0.0, 2.0))]}
         if up:
             card.update(init=[lo_s, nfl], mugrid=[[hi_s, nfl + 1]], inv=None)
-        lambdas = [1.0, 0.5, 0.25] if n == 3 else [1.0, 0.5, 0.25, 0.125]
+        if n == 3:
+            lambdas = [1.0, 0.5, 0.25]
+        else:  # quick tier: three couplings (two local exponents), skipping the largest one
+            lambdas = [0.5, 0.25, 0.125] if quick else [1.0, 0.5, 0.25, 0.125]
         return {"n": n, "mode": mode, "up": up, "nfl": nfl, "k": [k1, k2], "lambdas": lambdas, "card": card, "pdf": pdf,
                 "prepared_input": bool(not up and not with_heavy)}
 
